@@ -59,7 +59,7 @@ int64_t ext__getline(str_t *line, uint64_t *len, FILE_t fp)
   return r;
 }
 int ext__stoi(str_t s);              /* below */
-uint64_t g_pids_pushed;
+uint64_t g_pids_pushed, g_pos_pids;   /* g_pos_pids: positive pids handed out by the queue */
 vec_int nondet_vec_int(void);
 void vec_int__push_back(vec_int *v, int x)
 {
@@ -71,6 +71,7 @@ int vec_int__elem(uint64_t vid, uint64_t i)
 {
   int p = nondet_int();
   __CPROVER_assume(FROM_PROCS(p));   /* container abstraction: every queued pid passed the assertion in push_back / came from getPidsAt */
+  if (p > 0) g_pos_pids = g_pos_pids + 1;
   return p;
 }
 maybe_vec_str_t Fs__readFileByLine__str_t_char(str_t path) { maybe_vec_str_t r = nondet_maybe_vec_str_t(); __CPROVER_assume(!r.ok || r.val.n <= VEC_MAX); return r; }
@@ -94,15 +95,16 @@ int ext__kill(int pid, int sig)
 /* ---- tryToKillPids: returns exactly the number of successful kill(2) calls ---- */
 int BaseKillPlugin__tryToKillPids(BaseKillPlugin *self, vec_int pids)
   __CPROVER_requires(pids.n <= VEC_MAX && g_kill_ok <= g_kill_calls && g_kill_calls <= KILL_BUDGET && ghost_exc == 0)
-  __CPROVER_assigns(g_kill_calls, g_kill_ok, g_side_effects, g_ts_str, g_ts_val)
+  __CPROVER_assigns(g_kill_calls, g_kill_ok, g_side_effects, g_ts_str, g_ts_val, g_pos_pids)
   __CPROVER_ensures(__CPROVER_return_value >= 0 && (uint64_t)__CPROVER_return_value == g_kill_ok - __CPROVER_old(g_kill_ok)) /*@C17*/
-  __CPROVER_ensures(g_kill_calls - __CPROVER_old(g_kill_calls) == pids.n)     /* every queued pid signalled exactly once */ /*@C01,C17*/
+  __CPROVER_ensures(g_kill_calls - __CPROVER_old(g_kill_calls) == g_pos_pids - __CPROVER_old(g_pos_pids))     /* every queued positive pid signalled exactly once, nothing else */ /*@C01,C17*/
   __CPROVER_ensures(g_kill_ok <= g_kill_calls && g_kill_calls <= KILL_BUDGET && ghost_exc == 0);
 #define LOOPC_BaseKillPlugin__tryToKillPids_1 \
-  __CPROVER_assigns(__begin1, nrKilled, g_kill_calls, g_kill_ok, g_side_effects, g_ts_str, g_ts_val) \
+  __CPROVER_assigns(__begin1, nrKilled, g_kill_calls, g_kill_ok, g_side_effects, g_ts_str, g_ts_val, g_pos_pids) \
   __CPROVER_loop_invariant(__begin1.i <= __begin1.n && __begin1.n == pids.n && __end1.i == __begin1.n) \
   __CPROVER_loop_invariant(nrKilled >= 0 && (uint64_t)nrKilled == g_kill_ok - __CPROVER_loop_entry(g_kill_ok) && (uint64_t)nrKilled <= __begin1.i) \
-  __CPROVER_loop_invariant(g_kill_calls - __CPROVER_loop_entry(g_kill_calls) == __begin1.i && g_kill_ok <= g_kill_calls && g_kill_calls <= KILL_BUDGET) \
+  __CPROVER_loop_invariant(g_kill_calls - __CPROVER_loop_entry(g_kill_calls) == g_pos_pids - __CPROVER_loop_entry(g_pos_pids) && \
+                           g_kill_calls - __CPROVER_loop_entry(g_kill_calls) <= __begin1.i && g_kill_ok <= g_kill_calls && g_kill_calls <= KILL_BUDGET) \
   __CPROVER_decreases(__begin1.n - __begin1.i)
 
 /* ---- getAndTryToKillPids: kills the pids of `target` and, recursively, of its cached children ---- */
@@ -117,18 +119,18 @@ int ext__stoi(str_t s)
 }
 #define CONTRACT_getAndTryToKillPids \
   __CPROVER_requires(WITHIN(g_victim, target) && g_kill_ok <= g_kill_calls && g_kill_calls <= KILL_BUDGET && ghost_exc == 0) \
-  __CPROVER_assigns(g_kill_calls, g_kill_ok, g_side_effects, g_procs_fd, g_procs_open, ghost_errno, g_ts_str, g_ts_val) \
+  __CPROVER_assigns(g_kill_calls, g_kill_ok, g_side_effects, g_procs_fd, g_procs_open, ghost_errno, g_ts_str, g_ts_val, g_pos_pids) \
   __CPROVER_ensures(g_kill_ok >= __CPROVER_old(g_kill_ok) && g_kill_ok <= g_kill_calls && g_kill_calls <= KILL_BUDGET) \
   __CPROVER_ensures(__CPROVER_return_value >= 0 && (uint64_t)__CPROVER_return_value == g_kill_ok - __CPROVER_old(g_kill_ok)) /*@C17*/ \
   __CPROVER_ensures(g_kill_ok <= g_kill_calls && g_kill_calls <= KILL_BUDGET && ghost_exc == 0)
 int BaseKillPlugin__getAndTryToKillPids(BaseKillPlugin *self, CgroupContext target) CONTRACT_getAndTryToKillPids;
 int BaseKillPlugin__getAndTryToKillPids__rec(BaseKillPlugin *self, CgroupContext target) CONTRACT_getAndTryToKillPids;   /* the recursive call, by contract */
 #define LOOPC_BaseKillPlugin__getAndTryToKillPids_1 \
-  __CPROVER_assigns(read, line, len, pids, nrKilled, g_kill_calls, g_kill_ok, g_side_effects, g_ts_str, g_ts_val) \
+  __CPROVER_assigns(read, line, len, pids, nrKilled, g_kill_calls, g_kill_ok, g_side_effects, g_ts_str, g_ts_val, g_pos_pids) \
   __CPROVER_loop_invariant(pids.n < 20 && nrKilled >= 0 && (uint64_t)nrKilled == g_kill_ok - __CPROVER_loop_entry(g_kill_ok)) \
   __CPROVER_loop_invariant(g_kill_ok <= g_kill_calls && g_kill_calls <= KILL_BUDGET)
 #define LOOPC_BaseKillPlugin__getAndTryToKillPids_2 \
-  __CPROVER_assigns(__begin2, nrKilled, g_kill_calls, g_kill_ok, g_side_effects, g_procs_fd, g_procs_open, ghost_errno, g_ts_str, g_ts_val) \
+  __CPROVER_assigns(__begin2, nrKilled, g_kill_calls, g_kill_ok, g_side_effects, g_procs_fd, g_procs_open, ghost_errno, g_ts_str, g_ts_val, g_pos_pids) \
   __CPROVER_loop_invariant(__begin2.i <= __begin2.n && __end2.i == __begin2.n && __begin2.n <= VEC_MAX) \
   __CPROVER_loop_invariant(nrKilled >= 0 && (uint64_t)nrKilled <= g_kill_ok && \
       g_kill_ok - (uint64_t)nrKilled == __CPROVER_loop_entry(g_kill_ok) - (uint64_t)__CPROVER_loop_entry(nrKilled) && \
@@ -244,20 +246,20 @@ _Bool BaseKillPlugin__reapProcess(BaseKillPlugin *self, int pid)
   __CPROVER_ensures((__CPROVER_return_value == 0 || __CPROVER_return_value == 1) && g_reaps == __CPROVER_old(g_reaps) + 1 && g_reaps <= KILL_BUDGET && ghost_exc == 0);
 #define CONTRACT_reapCgroupRecursively \
   __CPROVER_requires(WITHIN(g_victim, target) && g_reaps <= KILL_BUDGET && ghost_exc == 0) \
-  __CPROVER_assigns(g_side_effects, ghost_errno, g_reaps) \
+  __CPROVER_assigns(g_side_effects, ghost_errno, g_reaps, g_pos_pids) \
   __CPROVER_ensures(g_reaps >= __CPROVER_old(g_reaps) && g_reaps <= KILL_BUDGET) \
   __CPROVER_ensures(__CPROVER_return_value >= 0 && (uint64_t)__CPROVER_return_value <= g_reaps - __CPROVER_old(g_reaps) && ghost_exc == 0)
 int BaseKillPlugin__reapCgroupRecursively(BaseKillPlugin *self, CgroupContext target) CONTRACT_reapCgroupRecursively;
 int BaseKillPlugin__reapCgroupRecursively__rec(BaseKillPlugin *self, CgroupContext target) CONTRACT_reapCgroupRecursively;
 #define LOOPC_BaseKillPlugin__reapCgroupRecursively_1 \
-  __CPROVER_assigns(__begin2, reaped, g_side_effects, ghost_errno, g_reaps) \
+  __CPROVER_assigns(__begin2, reaped, g_side_effects, ghost_errno, g_reaps, g_pos_pids) \
   __CPROVER_loop_invariant(__begin2.i <= __begin2.n && __end2.i == __begin2.n && __begin2.n <= VEC_MAX && reaped >= 0 && reaped <= KILL_BUDGET && \
       g_reaps <= KILL_BUDGET && __CPROVER_loop_entry(g_reaps) <= KILL_BUDGET && __CPROVER_loop_entry(reaped) >= 0 && __CPROVER_loop_entry(reaped) <= KILL_BUDGET && \
       (int64_t)__CPROVER_loop_entry(g_reaps) - (int64_t)__CPROVER_loop_entry(reaped) >= 0 && \
       (int64_t)g_reaps - (int64_t)reaped >= (int64_t)__CPROVER_loop_entry(g_reaps) - (int64_t)__CPROVER_loop_entry(reaped)) \
   __CPROVER_decreases(__begin2.n - __begin2.i)
 #define LOOPC_BaseKillPlugin__reapCgroupRecursively_2 \
-  __CPROVER_assigns(__begin2, reaped, g_side_effects, ghost_errno, g_reaps) \
+  __CPROVER_assigns(__begin2, reaped, g_side_effects, ghost_errno, g_reaps, g_pos_pids) \
   __CPROVER_loop_invariant(__begin2.i <= __begin2.n && __end2.i == __begin2.n && __begin2.n <= VEC_MAX && reaped >= 0 && reaped <= KILL_BUDGET && \
       g_reaps <= KILL_BUDGET && __CPROVER_loop_entry(g_reaps) <= KILL_BUDGET && __CPROVER_loop_entry(reaped) >= 0 && __CPROVER_loop_entry(reaped) <= KILL_BUDGET && \
       (int64_t)__CPROVER_loop_entry(g_reaps) - (int64_t)__CPROVER_loop_entry(reaped) >= 0 && \
@@ -297,7 +299,7 @@ maybe_int BaseKillPlugin__tryToKillCgroup(BaseKillPlugin *self, CgroupContext ta
   __CPROVER_requires(g_xa_sets[XA_OOMS_T] == 0 && g_xa_sets[XA_OOMS_U] == 0 && g_xa_sets[XA_KILL_T] == 0 && g_xa_sets[XA_KILL_U] == 0 &&
                      g_xa_sets[XA_UUID_T] == 0 && g_xa_sets[XA_UUID_U] == 0 && g_side_effects <= (1UL << 40) && g_reaps == 0)
   __CPROVER_assigns(*stats, XA_ASSIGNS, g_kill_calls, g_kill_ok, g_procs_fd, g_procs_open, ghost_errno, g_ctl_writes, g_kill_file_written,
-                    g_pids_current, g_pids_current_ok, g_last_now, g_reaps)
+                    g_pids_current, g_pids_current_ok, g_last_now, g_reaps, g_pos_pids)
   /* dry run: reports one "kill", touches nothing */ /*@C04*/
   __CPROVER_ensures(dry ? (__CPROVER_return_value.ok && __CPROVER_return_value.val == 1 && g_side_effects == __CPROVER_old(g_side_effects) &&
                            g_kill_calls == 0 && g_ctl_writes == __CPROVER_old(g_ctl_writes) && g_xa_sets[XA_UUID_T] == 0 && g_xa_sets[XA_OOMS_T] == 0 &&
@@ -318,12 +320,12 @@ maybe_int BaseKillPlugin__tryToKillCgroup(BaseKillPlugin *self, CgroupContext ta
                             (!g_kill_file_written ? (!__CPROVER_return_value.ok || __CPROVER_return_value.val == 0) : 1)) : 1)
   __CPROVER_ensures(ghost_exc == 0);
 #define LOOPC_BaseKillPlugin__tryToKillCgroup_1 \
-  __CPROVER_assigns(tries, nrKilled, lastNrKilled, g_kill_calls, g_kill_ok, g_side_effects, g_procs_fd, g_procs_open, ghost_errno, g_ts_str, g_ts_val) \
+  __CPROVER_assigns(tries, nrKilled, lastNrKilled, g_kill_calls, g_kill_ok, g_side_effects, g_procs_fd, g_procs_open, ghost_errno, g_ts_str, g_ts_val, g_pos_pids) \
   __CPROVER_loop_invariant(0 <= tries && tries <= 10 && lastNrKilled >= 0 && nrKilled >= lastNrKilled && (uint64_t)nrKilled == g_kill_ok) \
   __CPROVER_loop_invariant(g_kill_ok <= g_kill_calls && g_kill_calls <= KILL_BUDGET) \
   __CPROVER_decreases(tries)
 
-#define HAVOC_KILL() do { HAVOC(g_victim); HAVOC(g_victim_path); HAVOC(g_side_effects); HAVOC(g_kill_calls); HAVOC(g_kill_ok); HAVOC(g_procs_fd); \
+#define HAVOC_KILL() do { HAVOC(g_victim); HAVOC(g_victim_path); HAVOC(g_side_effects); HAVOC(g_kill_calls); HAVOC(g_kill_ok); HAVOC(g_pos_pids); HAVOC(g_procs_fd); \
   __CPROVER_havoc_object(g_xa_present); __CPROVER_havoc_object(g_xa_prev); __CPROVER_havoc_object(g_xa_sets); __CPROVER_havoc_object(g_xa_written); __CPROVER_havoc_object(g_xa_written_str); HAVOC(g_gx_str); HAVOC(g_gx_val); \
   HAVOC(g_ts_str); HAVOC(g_ts_val); HAVOC(g_ctl_writes); HAVOC(g_reaps); HAVOC(g_kill_file_written); HAVOC(g_last_now); HAVOC(ghost_exc); HAVOC(ghost_errno); } while (0)
 #define CANARY __CPROVER_assert(0, "canary: contract precondition satisfiable and function exit reachable")
